@@ -17,7 +17,11 @@ func VxH18join() {
 	n := vxGet("n")
 	vxTraceMode(true)
 	vxSetEnv("SCIPIPE_BUFSIZE", "1") // sub-streams longer than the channel buffer
-	seps := []string{" ", ",", ":"}
+	seps := []string{" ", ",", ":", ", ", " -I "} // one-character and multi-character separators
+	nsep := vxGet("nsep") // 3: the one-character separators only; 5: all
+	if nsep < len(seps) {
+		seps = seps[:nsep]
+	}
 	sep := seps[vxChoice("sep", len(seps))]
 	mod := vxChoice("mod", 4) // 1 / 2: with a %suffix modifier after / before the join modifier; 3: a modifier that is not idempotent (s/a/bb/) after it
 	pat := "cat {i:in|join:" + sep + "} > {o:out}"
